@@ -5,6 +5,8 @@ import (
 	"fmt"
 
 	vmcommon "github.com/ElrondNetwork/elrond-vm-common"
+
+	"verifsim/spec"
 )
 
 // Coordinator is the stub shard coordinator: total on addresses of every length.
@@ -18,8 +20,8 @@ func ShardOf(address []byte, n uint32) uint32 {
 	if len(address) == 0 {
 		return 0
 	}
-	if vmcommon.IsSmartContractOnMetachain(address[len(address)-1:], address) {
-		return vmcommon.MetachainShardId
+	if spec.IsMetaContract(address) {
+		return spec.MetaShard
 	}
 	return uint32(address[len(address)-1]) % n
 }
@@ -78,7 +80,7 @@ type PayableOracle struct {
 
 // StateOf returns the oracle's answer for an address.
 func (p *PayableOracle) StateOf(address []byte) int {
-	if !vmcommon.IsSmartContractAddress(address) {
+	if !spec.IsContract(address) {
 		return Payable
 	}
 	if st, ok := p.Table[string(address)]; ok {
